@@ -10,6 +10,11 @@ CLAIMED = {
         note="Exact real arithmetic, not IEEE doubles (rounding cases such as phi == 2*pi are search-only). Trusted: Lean kernel, Mathlib, axioms propext/Classical.choice/Quot.sound, the Python-ast translator (validated each run by running its output against the implementation), the correspondence harness. Composites are modelled by member centres; Sphere.rotated is a copy.",
         technique="Lean 4 theorems over a model regenerated from core/math.py by a translator + differential correspondence (Float) + metamorphic search for replays",
         ref="DESIGN.md §5 C19"),
+    "C17": dict(
+        text="Proof (Lean 4): np.roll/fftshift/ifftshift modelled on lists; ifftshift∘fftshift = id and fftshift∘ifftshift = id for EVERY length (1-d and 2-d), hence ifft(fft x) = x and fft(ifft y) = y for every shape and any inverse transform pair (np.fft enters as the parameter FFTPair); the pre-repair code (second fftshift) is shown wrong for odd sizes by a kernel-checked counterexample. Transfer function over the reals: G_d1*G_d2 = G_(d1+d2), G_0 = 1, G_d*G_-d = 1, |G| = 1 (also with cascaded propagation, which is proved to give the same G), the spectral product is linear and never increases energy; with Parseval hypotheses the whole propagate pipeline is energy non-increasing. Tied by correspondence: index permutations exact, ft_coord/trans_func values and the propagate pipeline (np.fft between model steps) to 1e-9.",
+        note="np.fft is a parameter (inverse pair + Parseval are hypotheses, sampled); xarray metadata carrying and list-of-distances stacking are search-only; gradient_filter energy not claimed (|G| up to 2 by construction); real arithmetic, not IEEE.",
+        technique="Lean 4 theorems (induction/omega on list rotations; trig identities over R) + differential correspondence with np.fft as parameter + group-law search on real code",
+        ref="DESIGN.md §5 C17"),
 }
 
 NOT_YET = {}
